@@ -162,7 +162,11 @@ struct Sys {
 			}
 			obs.clear();
 		}
-		for (uint64_t p = init >> 8; p & 1023; p >>= 10) if (!apply((int) (p & 1023) - 1)) break;
+		for (uint64_t p = init >> 8; p & 1023; p >>= 10) {
+			int op = (int) (p & 1023) - 1;
+			if (r.replaying && op < nletters()) r.note("init prefix: %s", opname(op).c_str());
+			if (!apply(op)) break;
+		}
 		t0 = r.transitions;
 	}
 	~Sys()
@@ -186,7 +190,8 @@ struct Sys {
 	mpt::unique_array<mpt::command> *warr() { return reinterpret_cast<mpt::unique_array<mpt::command> *>(&wait); }
 	static void *targ(int t) { return (void *) (uintptr_t) (t + 1); }
 	int newtok(uint64_t id, int kind) { toks.push_back(Tok{id, kind, 0, 0}); return (int) toks.size() - 1; }
-	int nops() { ++g_expanded; return (int) letters(alpha).size(); }
+	int nletters() const { return (int) letters(alpha).size(); }
+	int nops() { ++g_expanded; return nletters(); }
 	std::string opname(int op) { return letters(alpha)[op].name; }
 	mpt::buffer *tbuf() const { return sub ? wait._buf : (d ? *(mpt::buffer **) (void *) d : 0); }
 
